@@ -41,6 +41,15 @@ pub mod e5 {
 	pub fn proofsize() -> usize {
 		super::N
 	}
+	/// cuckaroo family: one 64-bit value per nonce, from which the verifier cuts both endpoints
+	pub fn siphash_block(_v: &[u64; 4], _nonce: u64, _rot_e: u8, _xor_all: bool) -> u64 {
+		unsafe {
+			let k = CALLS;
+			kani::assume(k < 16);
+			CALLS = k + 1;
+			TAB[k]
+		}
+	}
 }
 
 /// Reference (from the graph definition in the file header of cuckatoo.rs / Tromp's spec):
@@ -147,4 +156,98 @@ proof! {
 	}
 }
 
-pub const HARNESSES: &[(&str, fn())] = &[("c05a::cuckatoo_verify_matches_definition", cuckatoo_verify_matches_definition)];
+/// Cuckaroo (bipartite, plain node equality): the n edges form one simple cycle iff on each
+/// side every edge shares its endpoint with exactly one other edge and alternately following the
+/// U-side and V-side matches from edge 0 returns to edge 0 after exactly n steps.
+fn oracle_cuckaroo(nonces: &[u64; N], u: &[u64; N], v: &[u64; N], edge_mask: u64) -> bool {
+	let mut i = 0;
+	while i < N {
+		if nonces[i] > edge_mask {
+			return false;
+		}
+		if i > 0 && nonces[i] <= nonces[i - 1] {
+			return false;
+		}
+		i += 1;
+	}
+	let mut mu = [0usize; N];
+	let mut mv = [0usize; N];
+	i = 0;
+	while i < N {
+		let mut cu = 0;
+		let mut cv = 0;
+		let mut j = 0;
+		while j < N {
+			if j != i {
+				if u[j] == u[i] {
+					cu += 1;
+					mu[i] = j;
+				}
+				if v[j] == v[i] {
+					cv += 1;
+					mv[i] = j;
+				}
+			}
+			j += 1;
+		}
+		if cu != 1 || cv != 1 {
+			return false;
+		}
+		i += 1;
+	}
+	let mut cur = 0usize;
+	let mut side_u = true;
+	let mut steps = 0;
+	while steps < N {
+		cur = if side_u { mu[cur] } else { mv[cur] };
+		side_u = !side_u;
+		steps += 1;
+		if cur == 0 && steps < N {
+			return false;
+		}
+	}
+	cur == 0
+}
+
+proof! {
+	[]
+	#[cfg_attr(kani, kani::stub(grin_core::pow::siphash::siphash_block, e5::siphash_block))]
+	#[cfg_attr(kani, kani::stub(grin_core::global::proofsize, e5::proofsize))]
+	fn cuckaroo_verify_matches_definition() {
+		#[cfg(kani)]
+		{
+			env::set_chain_type(grin_core::global::ChainTypes::AutomatedTesting);
+			let ctx = grin_core::pow::new_cuckaroo_ctx(EB, N).unwrap();
+			let mut nonces = [0u64; N];
+			let mut u = [0u64; N];
+			let mut v = [0u64; N];
+			let node_mask = (1u64 << EB) - 1;
+			let mut i = 0;
+			while i < N {
+				nonces[i] = nd::any();
+				let e: u64 = nd::any();
+				unsafe {
+					e5::TAB[i] = e;
+				}
+				u[i] = e & node_mask;
+				v[i] = (e >> 32) & node_mask;
+				i += 1;
+			}
+			unsafe { e5::CALLS = 0; }
+			let proof = Proof { edge_bits: EB, nonces: nonces.to_vec() };
+			let r = ctx.verify(&proof);
+			let expect = oracle_cuckaroo(&nonces, &u, &v, node_mask);
+			check!(r.is_ok() == expect, "cuckaroo verify accepts exactly the simple cycles of the graph");
+			cover!(r.is_ok(), "a cycle is accepted");
+			cover!(r.is_err() && nonces[N - 1] <= node_mask, "a well-formed non-cycle is rejected");
+			core::mem::forget(r);
+			core::mem::forget(proof);
+			core::mem::forget(ctx);
+		}
+	}
+}
+
+pub const HARNESSES: &[(&str, fn())] = &[
+	("c05a::cuckatoo_verify_matches_definition", cuckatoo_verify_matches_definition),
+	("c05a::cuckaroo_verify_matches_definition", cuckaroo_verify_matches_definition),
+];
